@@ -429,14 +429,15 @@ class Worker:
             if not self._running:
                 return None
 
-            if addr in self._cancelled_task_ids or addr not in self._tasks:
+            # A cancel may remove the task at any moment; look it up once
+            task = self._tasks.get(addr)
+
+            if addr in self._cancelled_task_ids or task is None:
                 # When a task is cancelled on the worker it is not removed
                 # from the ready queue because it is much cheaper to just
                 # discard cancelled tasks as they come out.
                 self._discard_task(addr)
                 continue
-
-            task = self._tasks[addr]
 
             if any(bcb in self._cancelled_task_ids for bcb in task.breadcrumbs):
                 # If any of the selected tasks ancestor tasks are cancelled
